@@ -112,7 +112,8 @@ def apply_layout(x, name):
     if name == "-" or not isinstance(x, np.ndarray):
         return x
     y = relayout(x, name)
-    assert y.shape == x.shape and np.array_equal(y, x)
+    if not (y.shape == x.shape and np.array_equal(y, x)):
+        raise RuntimeError('y.shape == x.shape and np.array_equal(y, x)')
     return y
 
 
